@@ -62,6 +62,14 @@ def cases():
     for k in range(2, 5):
         c.append(("AllDifferent/%d[Int]" % k, ("mgr", "AllDifferent"), [INT] * k, [], lambda v, W: len(set(v)) == len(v)))
         c.append(("AllDifferent/%d[Bool]" % k, ("mgr", "AllDifferent"), [B] * k, [], lambda v, W: len(set(v)) == len(v)))
+    # the same term at two positions
+    c.append(("AllDifferent(x, x)", ("mgr", "AllDifferent"), [INT, INT], ["same:0:1"], lambda v, W: False))
+    c.append(("AllDifferent(x, y, x)", ("mgr", "AllDifferent"), [INT, INT, INT], ["same:0:2"], lambda v, W: False))
+    c.append(("AtMostOne(a, a)", ("mgr", "AtMostOne"), [B, B], ["same:0:1"], lambda v, W: not v[0]))
+    c.append(("ExactlyOne(a, b, a)", ("mgr", "ExactlyOne"), [B, B, B], ["same:0:2"], lambda v, W: sum(map(bool, v)) == 1))
+    c.append(("Min(x, x)", ("mgr", "Min"), [INT, INT], ["same:0:1"], lambda v, W: v[0]))
+    c.append(("Xor(a, a)", ("mgr", "Xor"), [B, B], ["same:0:1"], lambda v, W: False))
+    c.append(("EqualsOrIff(x, x)", ("mgr", "EqualsOrIff"), [INT, INT], ["same:0:1"], lambda v, W: True))
     c.append(("infix & [Bool]", ("meth", "__and__"), [B, B], [], lambda v, W: v[0] and v[1]))
     c.append(("infix | [Bool]", ("meth", "__or__"), [B, B], [], lambda v, W: v[0] or v[1]))
     c.append(("infix ^ [Bool]", ("meth", "__xor__"), [B, B], [], lambda v, W: v[0] != v[1]))
@@ -131,8 +139,12 @@ def _job(idx):
         it = Interp(ex)
         w = proc.setup_env(__import__("sa.world", fromlist=["World"]).World().attach(it))
         ops = [w.symbol("t%d" % i, sc._sort(w, s)) for i, s in enumerate(sorts)]
+        for e in extra:
+            if isinstance(e, str) and e.startswith("same:"):      # operand j is the very same term as operand i
+                _, i_, j_ = e.split(":")
+                ops[int(j_)] = ops[int(i_)]
         pre = [e[4:] == "True" for e in extra if isinstance(e, str) and e.startswith("pre:")]
-        post_args = [e for e in extra if not (isinstance(e, str) and e.startswith("pre:"))]
+        post_args = [e for e in extra if not (isinstance(e, str) and (e.startswith("pre:") or e.startswith("same:")))]
         if call[0] == "mgr":
             r = it.call(it.getattr(w.mgr, call[1]), pre + ops + post_args)
         elif call[0] == "meth":
@@ -177,7 +189,7 @@ def _job(idx):
             for asg in sc.assignments(w, ops + [r], p.facts(), max_w=3):
                 if not sc.facts_hold(p.facts(), asg):
                     continue
-                vals = [asg["sym:t%d" % i] for i in range(len(ops))]
+                vals = [asg["sym:" + w.npayload(o)[0]] for o in ops]
                 W = asg.get("W")
                 try:
                     exp = ref(vals, W)
